@@ -48,6 +48,21 @@ CHECKS = {
  "C18": dict(tech="absence-of-shared-state scans (statics with Freeze/thread_local/mut classification from rustc, unsafe Send/Sync impls, lazy globals, hash iteration) over both crates; compile_fail Send witnesses with compiling twins",
       text="Decides determinism/isolation through its cause: no static of either crate is mutable or interior-mutable, the only thread-local is the C API's LAST_ERROR accessed through try_with by two functions, sharing objects are created per rewriter, hash iteration is order-insensitive, and Send-ness is proved by the compiler on witnesses. Equality of concurrent and sequential runs as such is not decided.",
       ref="DESIGN.md §3 C18"),
+ "C04": dict(tech="variant-set agreement between the selector validator and the translator (expanded syntax tree); negation-over-conjunction soundness condition; stack/counter maintenance order and the three-stage matching pipeline as MIR call-sequence rules",
+      text="Structural clauses only: everything the validator accepts has a translation, the six attribute operators map to six matcher methods, names are folded on both sides, the open-element stack and sibling counters are maintained in the required order, the void/self-closing directive table, and every start tag runs all three matching stages including after an attribute bail-out. :not() over a compound / a list under double negation is a known finding (F2). The compiled program's equivalence with CSS semantics for all selector sets and documents is not decided, nor is the arithmetic of an+b.",
+      ref="DESIGN.md §3 C04"),
+ "C05": dict(tech="syntax-tree rules on the handler bookkeeping (balance and independence of activation, kind/flag/token table across four functions) and MIR ordering rules",
+      text="Decides the bookkeeping clauses: the handler vectors activated for a matched element's content are exactly those deactivated when it closes, each independently; one table relates handler kind, capture flag and token variant in all four places; selector handlers are registered before document handlers and iterated in order; element/end-tag/end handlers are one-shot; sticky scanner scratch cannot turn a start tag into an end-tag hint. Exactly-once delivery over all open/close sequences depends on the VM's behaviour and is not decided.",
+      ref="DESIGN.md §3 C05"),
+ "C07": dict(tech="sibling cross-check of 28 token mutation methods and a documented-table check of the Element operations on the expanded syntax tree; serialisation-order and emission-gate rules",
+      text="Decides that each API operation edits the documented place (which list, which end), that streaming twins differ only in the chunk constructor, that mutated tokens serialise as before/(self|replacement)/after, that element-level end-tag edits are applied before user end-tag handlers, that removal of an attribute removes all duplicates, and that removed content is gated by emission_enabled. That arbitrary compositions equal the reference edit is not decided.",
+      ref="DESIGN.md §3 C07"),
+ "C08": dict(tech="writer/reader agreement as language inclusions: reject/escape byte sets read from the source vs. the tokenizer automaton over all 256 bytes; DFA inclusion (product construction) for comment text",
+      text="Decides exhaustively (finite alphabets / regular languages) that accepted tag names and attribute names cannot leave the name states, that the double-quoted value state ends only on escaped bytes, that escaped body text can reach no tag state, and that every comment text that would end the comment early is rejected (counterexample-producing DFA inclusion); plus atomicity and no-replacement encoding of validated setters. Cross-encoding confusion and other parsers are not decided.",
+      ref="DESIGN.md §3 C08"),
+ "C17": dict(tech="C header prototype reader compared with extern \"C\" signatures from MIR; namesake-routing, catch_panic containment, Err-edge reachability and ownership pairing rules over the C API crate's MIR",
+      text="Decides wrapper discipline: all 93 declared functions exist with matching arity and type classes and the repr(C) struct layouts agree; each accessor/mutator calls its Rust namesake and is_html selects Html; rewriter new/write/end run only under catch_panic; every examined Result reaches save_last_error on its Err edge; streaming callbacks succeed iff they return 0; Box::into_raw/from_raw types pair up and Str::new never returns NULL for a present string. Equality of C-driven and Rust-driven runs and allocator hygiene over all histories are not decided.",
+      ref="DESIGN.md §3 C17"),
 }
 
 PENDING_REASON = "check for this property is not built yet in this revision (work in progress; see DESIGN.md §3 for the planned static rules)"
